@@ -263,8 +263,8 @@ package at
 //@   modifies heap.all, ghost.all
 //@   ensures statement-before-success: result1 == nil ==> called("callback:f#1") && callres("callback:f#1", 1) == nil && result0 == callres("callback:f#1", 0)
 //@   ensures both-images-recorded: result1 == nil ==> called("beforeImage#1") && callres("beforeImage#1", 1) == nil && called("afterImage#1") && callres("afterImage#1", 1) == nil && called("AppendBeofreImage#1") && callarg("AppendBeofreImage#1", 1) == callres("beforeImage#1", 0) && called("AppendAfterImage#1") && callarg("AppendAfterImage#1", 1) == callres("afterImage#1", 0)
-//@   ensures C01/existing-row-is-an-update: result1 == nil && called("beforeImage#1") && called("afterImage#1") && len(callres("beforeImage#1", 0).Rows) > 0 ==> callres("beforeImage#1", 0).SQLType == types.SQLTypeUpdate && callres("afterImage#1", 0).SQLType == types.SQLTypeUpdate
-//@   ensures C01/new-row-is-an-insert: result1 == nil && called("beforeImage#1") && called("afterImage#1") && len(callres("beforeImage#1", 0).Rows) == 0 ==> callres("beforeImage#1", 0).SQLType == types.SQLTypeInsert && callres("afterImage#1", 0).SQLType == types.SQLTypeInsert
+//@   ensures existing-row-is-an-update: result1 == nil && called("beforeImage#1") && called("afterImage#1") && len(callres("beforeImage#1", 0).Rows) > 0 ==> callres("beforeImage#1", 0).SQLType == types.SQLTypeUpdate && callres("afterImage#1", 0).SQLType == types.SQLTypeUpdate
+//@   ensures new-row-is-an-insert: result1 == nil && called("beforeImage#1") && called("afterImage#1") && len(callres("beforeImage#1", 0).Rows) == 0 ==> callres("beforeImage#1", 0).SQLType == types.SQLTypeInsert && callres("afterImage#1", 0).SQLType == types.SQLTypeInsert
 //@   may_panic
 
 // multi-statement executors: one image for all statements, same rule
@@ -297,7 +297,7 @@ package at
 //@   ensures rows-only-after-the-coordinator-agreed: result1 == nil && result0 != nil ==> ghost.lock_queries == old(ghost.lock_queries) + 1 && ghost.lock_granted && ghost.sel_runs == old(ghost.sel_runs) + 1
 //@   ensures conflict-is-an-error: ghost.lock_queries == old(ghost.lock_queries) + 1 && !ghost.lock_granted ==> result1 != nil && result0 == nil
 //@   ensures conflict-is-recognisable: called("LockQuery#1") && callres("LockQuery#1", 1) == nil && !callres("LockQuery#1", 0) ==> result1 == lockConflictError
-//@   ensures C16/success-carries-the-statement-result: result1 == nil ==> result0 != nil && called("callback:f#1") && result0 == callres("callback:f#1", 0)
+//@   ensures success-carries-the-statement-result: result1 == nil ==> result0 != nil && called("callback:f#1") && result0 == callres("callback:f#1", 0)
 //@   ensures one-question-per-attempt: ghost.lock_queries <= old(ghost.lock_queries) + 1 && ghost.lock_queries >= old(ghost.lock_queries) && ghost.sel_runs <= old(ghost.sel_runs) + 1 && ghost.sel_runs >= old(ghost.sel_runs)
 //@   ensures no-question-keeps-the-answer: ghost.lock_queries == old(ghost.lock_queries) ==> ghost.lock_granted == old(ghost.lock_granted)
 //@   ensures holds-a-way-back: result1 == nil || ghost.lock_queries > old(ghost.lock_queries) ==> s.tx != nil || s.savepointName != ""
